@@ -29,6 +29,7 @@ func (d *PathDecoder) bodySchemaCandidates(ctx context.Context, body *hclsyntax.
 			// suggest a duplicate
 			if _, ok := body.Attributes["count"]; !ok {
 				candidates.List = append(candidates.List, attributeSchemaToCandidate(ctx, "count", schemahelper.CountAttributeSchema(), editRng))
+				count++
 			}
 		}
 
@@ -37,6 +38,7 @@ func (d *PathDecoder) bodySchemaCandidates(ctx context.Context, body *hclsyntax.
 			// suggest a duplicate
 			if _, present := body.Attributes["for_each"]; !present {
 				candidates.List = append(candidates.List, attributeSchemaToCandidate(ctx, "for_each", schemahelper.ForEachAttributeSchema(), editRng))
+				count++
 			}
 		}
 	}
